@@ -62,22 +62,74 @@ def observe(ac):
             "ud": int(ac.vertical_swing_angle), "clean": bool(ac.self_clean_active)}, sum(flags)
 
 
-def replay(hist, prof, *, five_level=False):
+def replay(hist, prof, *, five_level=False, mid_apply=False):
     from msmart.device import AirConditioner as AC
     AX = AC
     vloop.install_clock()
     loop = vloop.new_loop()
     net = vloop.Net(loop)
     dev = make_device(prof, five_level)
-    landev.LanDevice(loop, net, dev, version=2)
+    ldev = landev.LanDevice(loop, net, dev, version=2)
+    ldev.respond = lambda tr, packets: [loop.call_later(0.05, tr.feed, p) for p in packets]     # every answer takes 50 ms (virtual)
     ac = AC(ip="10.0.0.9", port=6444, device_id=0x1122334455)
     events = []
+    SETTERS = {"away", "mild", "less", "ieco", "beep", "rate", "lr", "ud"}
+
+    def snapshot(a, v, mark, raised=""):
+        b0, b1 = [], []
+        for f in dev.rx_frames[mark:]:
+            c = acdev.parse_command(f)
+            if c["ok"] and c["body"][:1] == b"\xb0":
+                b0.append(B(f))
+            elif c["ok"] and c["body"][:1] == b"\xb1":
+                b1.append(B(f))
+        attrs, nb = observe(ac)
+        events.append({"a": a, "v": int(v), "b0": b0, "b1": b1, "attrs": attrs, "nbreeze": nb, "regs": regs_of(dev), "raised": raised,
+                       "sup": {"away": bool(ac.supports_breeze_away), "mild": bool(ac.supports_breeze_mild), "less": bool(ac.supports_breezeless),
+                               "ieco": bool(ac.supports_ieco), "lr": bool(ac.supports_horizontal_swing_angle),
+                               "ud": bool(ac.supports_vertical_swing_angle), "clean": bool(ac.supports_self_clean)}})
+
+    def do_setter(a, v):
+        if a == "away":
+            ac.breeze_away = bool(v)
+        elif a == "mild":
+            ac.breeze_mild = bool(v)
+        elif a == "less":
+            ac.breezeless = bool(v)
+        elif a == "ieco":
+            ac.ieco = bool(v)
+        elif a == "beep":
+            ac.beep = bool(v)
+        elif a == "rate":
+            ac.rate_select = AX.RateSelect(v)
+        elif a == "lr":
+            ac.horizontal_swing_angle = AX.SwingAngle(v)
+        elif a == "ud":
+            ac.vertical_swing_angle = AX.SwingAngle(v)
 
     async def go():
-        for st in hist:
+        import asyncio
+        k = 0
+        while k < len(hist):
+            st = hist[k]
+            k += 1
             a, v = st["a"], st["v"]
             mark = len(dev.rx_frames)
             raised = ""
+            if mid_apply and a in SETTERS and k < len(hist) and hist[k]["a"] == "apply" and (k + len(hist)) % 2 == 0:
+                # the setter is called by another task WHILE apply() is waiting for the answer to its state command: for the property
+                # protocol this is the history [setter, apply] (the change is made before the property write is assembled)
+                k += 1
+                try:
+                    t = asyncio.ensure_future(ac.apply())
+                    await asyncio.sleep(0.02)
+                    do_setter(a, v)
+                    snapshot(a, v, len(dev.rx_frames))
+                    await t
+                except Exception as ex:  # noqa: BLE001 - code under test
+                    raised = type(ex).__name__
+                snapshot("apply", 0, mark, raised)
+                continue
             try:
                 if a == "away":
                     ac.breeze_away = bool(v)
@@ -199,7 +251,7 @@ def judge(ctx, runs, canaries=True):
             at = int(clause.split(" @event ")[1])
             cl = clause.split(" @event ")[0]
             ctx.violation(f"{pname}: history {[(s['a'], s['v']) for s in r['hist'][:at]]}"[:300], cl,
-                          {"profile": pname, "five": r["five"], "hist": r["hist"][:at], "clause": cl,
+                          {"profile": pname, "five": r["five"], "mid_apply": r.get("mid", False), "hist": r["hist"], "clause": cl,
                            "breeze_legacy_both": cl.startswith("breeze mode differs (refresh)") and pname == "LegacyBoth"})
 
 
@@ -216,17 +268,18 @@ def run(ctx: Ctx) -> int:
         ngen[pname + "_bfs4"] = len(hs)
         hs3 = gen(ctx, pname, name=f"C16_gen_shape_{pname}", depth=5, shape=True)
         ngen[pname + "_caps_x_y_apply_refresh"] = len(hs3)
-        cap = ctx.pick(80, 100000)
+        cap = ctx.pick(40, 100000)
         if len(hs) > cap:
             hs = ctx.rng.sample(hs, cap)
         hs2 = gen(ctx, pname, name=f"C16_gen_sim_{pname}", depth=ctx.pick(9, 12), simulate=f"num={ctx.pick(60, 1500)}", full=True, seed=ctx.seed + 3 + pi)
         ngen[pname + "_sim"] = len(hs2)
-        cap2 = ctx.pick(250, 8000)
+        cap2 = ctx.pick(120, 8000)
         if len(hs2) > cap2:
             hs2 = ctx.rng.sample(hs2, cap2)
         for k, h in enumerate(directed(prof) + hs3 + hs + hs2):
             five = (k % 2 == 1)
-            runs.append({"profile": pname, "five": five, "hist": h, "events": replay(h, prof, five_level=five)})
+            mid = (k % 3 == 2)
+            runs.append({"profile": pname, "five": five, "mid": mid, "hist": h, "events": replay(h, prof, five_level=five, mid_apply=mid)})
             ctx.count_distinct((pname, five, tuple((s["a"], s["v"]) for s in h)))
     ctx.extra["tlc_generated_histories"] = ngen
     judge(ctx, runs)
@@ -247,7 +300,8 @@ def replay_cmd(ctx, path):
     import json
     c = json.load(open(path))["case"]
     prof = PROFILES[c["profile"]]
-    runs = [{"profile": c["profile"], "five": c.get("five", False), "hist": c["hist"], "events": replay(c["hist"], prof, five_level=c.get("five", False))}]
+    runs = [{"profile": c["profile"], "five": c.get("five", False), "mid": c.get("mid_apply", False), "hist": c["hist"],
+             "events": replay(c["hist"], prof, five_level=c.get("five", False), mid_apply=c.get("mid_apply", False))}]
     judge(ctx, runs, canaries=False)
     return ctx.finish(rule="replay of one recorded history")
 
